@@ -5,7 +5,7 @@ import pysmt.operators as op
 from pysmt.environment import Environment
 from pysmt.oracles import SizeOracle
 
-from . import gen_all, lib, termcases, tocoq
+from . import gen_all, lib, sortshape, termcases, tocoq
 from .gen.formulas import Config, FormulaGen
 
 TRUSTED = [
@@ -86,6 +86,90 @@ def ref_atoms(f, env):
     return memo[f]
 
 
+def ref_types(f):
+    """All sorts of a formula by the structural definition: sorts of symbols and constants, signatures of
+    applied functions, sorts of bound variables, index sorts of array values - closed under component
+    sorts (index / element of an array sort, arguments of a user-declared parametric sort)."""
+    base = []
+    for n in tocoq.topo([f]):
+        if n.is_symbol():
+            base.append(n.symbol_type())
+        elif n.is_function_application():
+            ft = n.function_name().symbol_type()
+            base.append(ft.return_type)
+            base.extend(ft.param_types)
+        elif n.is_quantifier():
+            base.extend(v.symbol_type() for v in n.quantifier_vars())
+        elif n.is_array_value():
+            base.append(n.array_value_index_type())
+        elif n.is_constant():
+            base.append(n.constant_type())
+    closed = []
+    for t in base:
+        sortshape.sort_tree(t, closed)
+    return closed
+
+
+def components(t):
+    if t.is_array_type():
+        return [t.index_type, t.elem_type]
+    if t.is_custom_type():
+        return list(t.args)
+    return []
+
+
+def is_builtin(t):
+    return (t.is_bool_type() or t.is_int_type() or t.is_real_type() or t.is_bv_type() or t.is_array_type()
+            or t.is_string_type())
+
+
+def sort_shape_cases(tier):
+    """SORT-SHAPE family: a user sort S, P(S) or Q(Int, S) as the ONLY occurrence of S, at depth 0..3 under every
+    chain of Array-index / Array-element / parametric-argument wrappers, reaching the formula through each
+    carrier of sortshape.CARRIERS."""
+    from pysmt.typing import INT
+    for ch in sortshape.chains(sortshape.WRAPS, 0, 3 if tier == "quick" else 4):
+        for leaf in ("S", "P(S)", "Q(Int,S)"):
+            env = Environment()
+            tm = env.type_manager
+            S = tm.Type("S", 0)
+            lt = {"S": S, "P(S)": tm.get_type_instance(tm.Type("P", 1), S),
+                  "Q(Int,S)": tm.get_type_instance(tm.Type("Q", 2), INT, S)}[leaf]
+            t = sortshape.build_sort(env, lt, ch, INT)
+            for c in sortshape.CARRIERS:
+                f = sortshape.carrier_formula(env, t, c)
+                if f is not None:
+                    yield env, f, "sortshape:%s:%s:%s" % (leaf, "-".join(ch), c)
+
+
+def check_types(chk, env, f, fam):
+    """get_types in both modes against the definition, against each other, and the stated order."""
+    want = ref_types(f)
+    skey = str(tocoq.skey(f))[:200]
+    sorts = sorted(set(str(m.symbol_type()) for m in tocoq.topo([f]) if m.is_symbol()))
+    got = {}
+    for custom in (False, True):
+        r = env.typeso.get_types(f, custom_only=custom)
+        got[custom] = r
+        exp = [t for t in want if not (custom and is_builtin(t))]
+        if set(r) != set(exp) or len(set(r)) != len(r):
+            chk.violation({"kind": "input", "what": "get_types(f, custom_only=%s) differs from the definition (walked sorts closed under "
+                           "component sorts%s)" % (custom, ", built-in sorts removed" if custom else ""), "formula": f.serialize(),
+                           "symbol_sorts": sorts, "family": fam, "reported": [str(t) for t in r], "definition": sorted(str(t) for t in exp)},
+                          key="types%s:%s" % ("-custom" if custom else "", skey))
+        pos = {t: i for i, t in enumerate(r)}
+        late = [(str(t), str(c)) for t in r for c in components(t) if c in pos and pos[c] > pos[t]]
+        if late:
+            chk.violation({"kind": "input", "what": "get_types(f, custom_only=%s): expand_types states 'simpler types first', but %s is listed "
+                           "before its component %s" % (custom, late[0][0], late[0][1]), "formula": f.serialize(), "symbol_sorts": sorts,
+                           "reported": [str(t) for t in r]}, key="types-order:%s:%s" % ("custom" if custom else "all", skey))
+    if set(got[True]) != set(t for t in got[False] if not is_builtin(t)):
+        chk.violation({"kind": "input", "what": "get_types(custom_only=True) is not the non-built-in part of get_types()", "formula": f.serialize(),
+                       "symbol_sorts": sorts, "family": fam, "custom_only": [str(t) for t in got[True]], "default": [str(t) for t in got[False]]},
+                      key="types-consistency:" + skey)
+    return got
+
+
 def run(tier):
     chk = lib.Check("C12", tier)
     rnd = random.Random(chk.seed)
@@ -96,9 +180,7 @@ def run(tier):
     cases, meta = [], []
     MEAS = [SizeOracle.MEASURE_TREE_NODES, SizeOracle.MEASURE_DAG_NODES, SizeOracle.MEASURE_LEAVES,
             SizeOracle.MEASURE_DEPTH, SizeOracle.MEASURE_SYMBOLS, SizeOracle.MEASURE_BOOL_DAG]
-    env = None
     ops_seen = set()
-    batch = []
 
     def recheck(env, batch):
         """The analyses must still equal their definitions after the environment has been used for
@@ -148,26 +230,44 @@ def run(tier):
                 chk.violation({"kind": "history", "what": "get_atoms differs from the definition after the environment was used", "formula": f.serialize()},
                               key="atoms-after-use:" + str(tocoq.skey(f))[:200])
 
-    for i in range(n):
-        if i % 100 == 0:
-            if env is not None:
-                recheck(env, batch)
-            batch = []
-            env = Environment()
-            # every other batch: Boolean structure with many (nested, shadowing) quantifiers over Int/Bool/UF atoms
-            boolq = (i // 100) % 2 == 1
-            g = FormulaGen(env, rnd, Config(bv=False, strings=False, arrays=False, reals=False, custom=False, div=False)
-                           if boolq else Config())
-        t = g.types[0] if boolq else (rnd.choice(g.types) if rnd.random() < 0.5 else g.types[0])
-        f = g.gen(t, rnd.randint(1, 5))
-        batch.append(f)
+    def inputs():
+        cur, batch = None, []
+        for i in range(n):
+            if i % 100 == 0:
+                if cur is not None:
+                    recheck(cur, batch)
+                batch = []
+                cur = Environment()
+                # every other batch: Boolean structure with many (nested, shadowing) quantifiers over Int/Bool/UF atoms
+                boolq = (i // 100) % 2 == 1
+                g = FormulaGen(cur, rnd, Config(bv=False, strings=False, arrays=False, reals=False, custom=False, div=False)
+                               if boolq else Config())
+            t = g.types[0] if boolq else (rnd.choice(g.types) if rnd.random() < 0.5 else g.types[0])
+            f = g.gen(t, rnd.randint(1, 5))
+            batch.append(f)
+            yield cur, f, "random"
+        recheck(cur, batch)
+        batch = []
+        last = None
+        for e, f, fam in sort_shape_cases(tier):
+            if e is not last and last is not None:
+                recheck(last, batch)
+                batch = []
+            last = e
+            batch.append(f)
+            yield e, f, fam
+        recheck(last, batch)
+    nshape = 0
+    for env, f, fam in inputs():
+        nshape += fam != "random"
         fvs = env.fvo.get_free_variables(f)
         try:
             ats = env.ao.get_atoms(f)
         except AssertionError:
             ats = None
         qf = env.qfo.is_qf(f)
-        tys = env.typeso.get_types(f)
+        both = check_types(chk, env, f, fam)
+        tys, ctys = both[False], both[True]
         sizes = [env.sizeo.get_size(f, m) for m in MEAS]
         for m in tocoq.topo([f]):
             ops_seen.add(m.node_type())
@@ -191,35 +291,37 @@ def run(tier):
         # ---- case for the model
         roots = [f] + sorted(fvs, key=lambda x: x.node_id()) + (sorted(ats, key=lambda x: x.node_id()) if ats is not None else [])
 
-        def body(names, f=f, fvs=fvs, ats=ats, qf=qf, tys=tys, sizes=sizes):
+        def body(names, f=f, fvs=fvs, ats=ats, qf=qf, tys=tys, ctys=ctys, sizes=sizes):
             fv_l = "[%s]" % "; ".join("(%s, %s)" % (tocoq.cstr(v.symbol_name()), tocoq.ty(v.symbol_type())) for v in fvs)
             at_l = "None" if ats is None else "(Some [%s])" % "; ".join(names[a] for a in ats)
             ty_l = "[%s]" % "; ".join(tocoq.ty(t) for t in tys)
+            cty_l = "[%s]" % "; ".join(tocoq.ty(t) for t in ctys)
             sz_l = "[%s]" % "; ".join("%d%%nat" % s for s in sizes)
-            return "(%s, %s, %s, %s, %s, %s)" % (names[f], fv_l, at_l, "true" if qf else "false", ty_l, sz_l)
+            return "(%s, %s, %s, %s, %s, %s, %s)" % (names[f], fv_l, at_l, "true" if qf else "false", ty_l, cty_l, sz_l)
         cases.append((roots, body))
         meta.append(f)
         chk.count(("c12", tocoq.skey(f)), nontrivial=len(f.args()) > 0)
-    recheck(env, batch)
-    chk.sample({"formula": meta[0].serialize()[:300], "free": sorted(map(str, env.fvo.get_free_variables(meta[0])))})
-    chk.sample({"formula": meta[-1].serialize()[:300]})
+    chk.sample({"formula": meta[0].serialize()[:300], "free": sorted(map(str, meta[0].get_free_variables()))})
+    chk.sample({"family": "sort-shape", "formula": meta[-1].serialize()[:300],
+                "symbol_sorts": sorted(set(str(x.symbol_type()) for x in tocoq.topo([meta[-1]]) if x.is_symbol()))})
     ok_def = ("Definition opt_set_eqb (a b : option (list term)) : bool :=\n"
               "  match a, b with Some x, Some y => set_eqb term_eqb x y | None, None => true | _, _ => false end.\n"
-              "Definition ok (c : term * list var * option (list term) * bool * list ty * list nat) : bool :=\n"
-              "  let '(t, efv, eat, eqf, ety, esz) := c in\n"
+              "Definition ok (c : term * list var * option (list term) * bool * list ty * list ty * list nat) : bool :=\n"
+              "  let '(t, efv, eat, eqf, ety, ecty, esz) := c in\n"
               "  set_eqb var_eqb (fv t) efv && opt_set_eqb (atoms t) eat && Bool.eqb (is_qf t) eqf &&\n"
-              "  set_eqb ty_eqb (get_types t) ety &&\n"
+              "  set_eqb ty_eqb (get_types t) ety && set_eqb ty_eqb (get_types_custom t) ecty &&\n"
               "  list_eqb Nat.eqb [size_tree t; size_dag t; size_leaves t; size_depth t; size_symbols t; size_bool_dag t] esz.\n")
-    files = termcases.write(chk.dir, "c12", "From PySMT.models Require Import TypeChecker Oracles.",
-                            "term * list var * option (list term) * bool * list ty * list nat", ok_def, cases, shard=60)
+    files = termcases.write(chk.dir, "c12", "From PySMT.models Require Import TypeChecker Oracles OraclesCustom.",
+                            "term * list var * option (list term) * bool * list ty * list ty * list nat", ok_def, cases, shard=60)
     bad, errs = termcases.run(files)
-    chk.cov["correspondence"] = {"cases": len(cases), "disagreements": len(bad), "case_file_errors": len(errs),
+    chk.cov["correspondence"] = {"cases": len(cases), "sort_shape_cases": nshape, "disagreements": len(bad), "case_file_errors": len(errs),
                                  "node_types_covered": len(ops_seen), "examples": [meta[i].serialize()[:300] for i in bad[:5]]}
     for e in errs[:2]:
         chk.note("case file error: " + e["error"][-400:])
     for i in bad[:5]:
         chk.note("model/implementation disagree on: " + meta[i].serialize()[:200])
-    if (not ok or bad or errs) and not chk.violations and not chk.known_hits:
+    # the open finding about the ORDER of the reported list does not explain a difference of the reported sets
+    if (not ok or bad or errs) and not chk.violations and not [k for k in chk.known_hits if "types-order" not in k]:
         what = []
         if not ok:
             what.append("proof obligations no longer check: " + lib.proof_failure_summary(chk))
@@ -228,7 +330,9 @@ def run(tier):
                         % (len(bad) + len(errs), [meta[i].serialize()[:200] for i in bad[:2]]))
         chk.violation({"kind": "obligation", "theorem_or_correspondence": what}, found_input=False)
     return chk.finish(TRUSTED, ASSUME,
-                      "random well-typed formulas of all theories with sharing (gen/formulas.py), fresh Environment every 100; "
+                      "random well-typed formulas of all theories with sharing (gen/formulas.py), fresh Environment every 100; SORT-SHAPE family "
+                      "(user sort S / P(S) / Q(Int,S) as the only occurrence under every chain of Array-index / Array-element / parametric wrappers "
+                      "of depth 0..3 x 8 carriers), get_types compared in both modes (default, custom_only) with the model and the definition; "
                       "distinct = distinct structural keys with at least one operator application")
 
 
